@@ -20,7 +20,9 @@ RULE = ("Streams obtained by walking (etree / dom) trees parsed from Hypothesis 
         "element context (HTML title/textarea -> RCDATA; style/xmp/iframe/noembed/noframes -> RAWTEXT; script -> script data; plaintext -> PLAINTEXT; noscript -> RAWTEXT iff parsed with "
         "scripting; foreign elements -> CDATA allowed): tag and attribute names (ASCII case-insensitively; namespaced attributes under their qualified name), attribute values, concatenated text, "
         "comments and doctype fields must be exactly those given - nothing extra, nothing missing. Non-trivial = the stream has text/attribute data with any of < > & \" ' ` = or whitespace, "
-        "or raw-text/RCDATA/foreign elements, or a doctype with identifiers; distinct = (stream signature, option record).")
+        "or raw-text/RCDATA/foreign elements, or a doctype with identifiers; distinct = (stream signature, option record). Plus an enumerated raw-text family ('</' at the start, middle and end of one text token x the seven raw-text names x "
+        "HTML / SVG / MathML x walkers x escape_rcdata) and the serializer's own rule as an absolute clause: a mismatch together with a text token holding '</' written while its raw-text flag is up and no "
+        "reported error is a violation that no recorded finding excuses.")
 ASSUMPTIONS = ["output bytes are decoded with the same Python codec before lexing; only codecs that round-trip every character they encode are used",
                "a missing and an empty doctype identifier are not distinguished (walkers cannot tell them apart)", "the self-closing flag read back for '<br />' is not compared",
                "vf/ref/tokenizer.py is the lexer of reference (see C02)"]
@@ -387,6 +389,21 @@ def check_case(case):
     res = read_back(out, exp, scripting, alphabetical)
     if res is None:
         return Verdict("pass", nontrivial=nontrivial, sig=sig, classes=classes)
+    # the serializer's own rule, modelled on the stream it was given: text written while its raw-text flag is up (after the start tag of
+    # style/script/xmp/iframe/noembed/noframes/noscript in ANY namespace, until such an end tag) and holding "</" is always reported.
+    # No recorded finding is about such a token (on the unchanged tree the run ends above, at `if ser.errors`), so none excuses it.
+    raw, raw_close = False, None
+    for t in stream:
+        if t["type"] in ("StartTag", "EmptyTag"):
+            raw = raw or (t["name"] in SER_RAW and not opts.get("escape_rcdata"))
+        elif t["type"] == "EndTag":
+            raw = raw and t["name"] not in SER_RAW
+        elif t["type"] == "Characters" and raw and "</" in t["data"]:
+            raw_close = t["data"]
+            break
+    if raw_close is not None:
+        return Verdict("fail", "%s; text %s holding '</' was written raw inside a raw-text element and NO error was reported; opts=%s walker=%s container=%r\ninput %s\noutput %s"
+                       % (res[1], short(raw_close, 60), dict(opts, encoding=enc), walker, container, short(text, 250), short(out, 400)), "lexical:raw-close-unreported", nontrivial=nontrivial, sig=sig, classes=classes)
     trig = [f for f in known_triggers(given, opts, scripting, enc, at=_MISMATCH[0]) if active(f)]
     if trig:
         return Verdict("known", finding="+".join(trig), nontrivial=nontrivial, sig=sig, classes=classes)
@@ -435,6 +452,16 @@ def run_shard(desc, seed, tier):
                     k += 1
                     case = {"text": text, "container": None, "scripting": False, "walker": "etree" if o.get("strip_whitespace") else walker, "opts": dict(o)}
                     acc.add(case, check_case(case))
+        # raw-text family: "</" at the start, in the middle and at the end of ONE text token inside every element the serializer writes
+        # raw, as an HTML element (where the lexer keeps "</x" as text) and as its SVG / MathML namesake (where "&lt;/" gives it)
+        for root in ("", "<svg>", "<math>", "<svg><desc>"):
+            for name in sorted(SER_RAW):
+                for body in ("&lt;/%s>&lt;p>", "a&lt;/%s>b", "&lt;/", "&lt;/x", "x&lt;/", "</x", "a</b c", "&lt;/>", "&lt;/%s"):
+                    for walker in ("etree", "dom"):
+                        for o in ({"quote_attr_values": "legacy"}, {"quote_attr_values": "spec", "escape_rcdata": True}):
+                            case = {"text": "%s<%s>%s</%s>z" % (root, name, body.replace("%s", name), name), "container": None, "scripting": name == "noscript" and walker == "dom",
+                                    "walker": walker, "opts": dict(o)}
+                            acc.add(case, check_case(case))
         return acc
 
     strat = st.tuples(soup.soup_text(profile=desc["profile"], max_items=30), st.one_of(st.none(), st.none(), st.sampled_from(soup.CONTEXTS)), st.booleans(), st.sampled_from(["etree", "dom"]),
